@@ -568,8 +568,18 @@ def gen_C15(rng, tier):
                 neutralise(typ, body)
                 cases.append("mbi " + hx(E.mbi([E.tag(typ, bytes(body)[:max(0, s - 8)], size=s)])))
                 dist["builtin"] += 1
+    # BootInformation::get_tag::<T>() with user-defined T: the tag of T's ID absent / first / behind others / twice, every size 8..40
+    for sel, typ in ((0, 4096), (1, 4097), (2, 1)):
+        for size in range(8, 41):
+            tb = tagbytes(size, typ)
+            other = tagbytes(8 + rng.randrange(0, 20), rng.choice([4095, 4098, 5, 2]))
+            for tags in ([tb], [other, tb], [tb, tagbytes(16, typ)], [other]):
+                cases.append("gettag %d %s" % (sel, hx(valid_mem(E.mbi(tags)))))
+                dist["gettag"] = dist.get("gettag", 0) + 1
     return cases, dict(
-        rule="cast: 7 sized user types (0..6 extra words) and 36 DST user types (fixed extra bytes {0,1,4,8,12,16} x element "
+        rule="gettag: get_tag::<T>() for three user-defined T (sized with two words / DST with a u32 tail / header-only type "
+             "claiming the command-line ID) on regions where the tag of T's ID is absent, first, behind another tag, or present "
+             "twice, for every tag size 8..40. cast: 7 sized user types (0..6 extra words) and 36 DST user types (fixed extra bytes {0,1,4,8,12,16} x element "
              "(size,align) {(1,1),(2,2),(3,1),(4,4),(8,8),(24,8)}) x every tag size 8..96 (exhaustive); mbi: each of the 22 built-in "
              "kinds in a one-tag region x sizes 8..40 and around its fixed size. Compared: panic or (address, size_of_val, element "
              "count). distinct_nontrivial = distinct (domain, model transcript) pairs.",
@@ -589,7 +599,7 @@ def neutralise(typ, body):
 
 
 PROPS.update({
-    "C15": dict(gen=gen_C15, configs=["dev", "rel"], judge=judge_projection(["cast", "get"]), both_placements=True,
+    "C15": dict(gen=gen_C15, configs=["dev", "rel"], judge=judge_projection(["cast", "get", "load", "get_user"]), both_placements=True,
                 assumptions=["user-defined types of the harness (dom_cast.rs) declare BASE_SIZE = offset of the tail and dst_len = (size - BASE_SIZE)/element size"]),
 })
 
